@@ -150,7 +150,26 @@ class Runner(object):
 # --------------------------------------------------------------------------
 # generator (drives the running implementation; the recorded ops are the case)
 # --------------------------------------------------------------------------
-def pick_value(rng, f, bad=False):
+USED_VALUES = {}      # ident -> values used so far in the current history
+
+
+def pick_value(rng, f, bad=False, ident=None):
+    """value for a field; 20 % of the time an *equal but distinct int object* of a value already
+    used for that identifier in this history (scope keys compared by identity instead of equality
+    only show with values outside CPython's small-int cache), and scope-selecting values above 256
+    are drawn regularly"""
+    prev = USED_VALUES.setdefault(ident, [])
+    if not bad and prev and rng.random() < 0.2:
+        return int(str(rng.choice(prev)))
+    v = _pick_value(rng, f, bad)
+    if not bad and f.length is None and rng.random() < 0.12:
+        v = rng.choice([257, 300, 1000, 4096 + rng.randrange(3)])
+    if not bad:
+        prev.append(v)
+    return v
+
+
+def _pick_value(rng, f, bad=False):
     if bad:
         if f.length is not None and rng.random() < 0.6:
             return (1 << f.length) + rng.randrange(3)
@@ -172,6 +191,7 @@ def pick_value(rng, f, bad=False):
 
 
 def gen_history(rng, size, tight):
+    USED_VALUES.clear()
     L = rng.choice([1, 2, 3, 4, 5, 6, 8, 8, 10, 12, 16, 16, 24, 32, 32, 64])
     run = Runner(L)
     errors = rng.random() < 0.5          # error stream enabled for this history
@@ -211,7 +231,7 @@ def gen_history(rng, size, tight):
             if cand:
                 k = 1 if rng.random() < 0.7 else min(len(cand), 2)
                 for ident, f in rng.sample(cand, k):
-                    kw.append([ident, pick_value(rng, f, errors and rng.random() < 0.06)])
+                    kw.append([ident, pick_value(rng, f, errors and rng.random() < 0.06, ident)])
             if errors and (not kw or rng.random() < 0.08):
                 what = rng.random()
                 if what < 0.4:
